@@ -31,8 +31,25 @@ Proof.
 Qed.
 
 Definition rr (ll : bool) (y : str) : str := if ll then ll_norm y else y.
-Definition dom (ll : bool) (x : str) : Prop := if ll then ll_dom x = true else canon_value x = true.
-Lemma dom_canon ll x : dom ll x -> canon_value x = true.
+(* what each reader can hand out ([dom]) and what its printer gives back unchanged ([pcanon]): the
+   lossless reader canonical values; the lossy reader also values with empty continuation lines
+   that are not last (lcanon_value) *)
+Definition dom (ll : bool) (x : str) : Prop := if ll then ll_dom x = true else lcanon_value x = true.
+Definition pcanon (ll : bool) (y : str) : bool := if ll then canon_value y else lcanon_value y.
+Definition pfield (ll : bool) (f : str * str) : bool := valid_name (fst f) && pcanon ll (snd f).
+Lemma canon_lcanon y : canon_value y = true -> lcanon_value y = true.
+Proof.
+  unfold canon_value, lcanon_value. destruct (split_lf y) as [|l1 rest]; [discriminate|]. intros H. apply andb_true_iff in H. destruct H as [H1 Hr].
+  rewrite H1. cbn [andb]. apply andb_true_iff. split.
+  - apply forallb_forall. intros c Hc. rewrite forallb_forall in Hr. specialize (Hr c Hc). unfold canon_cont in Hr. unfold lcanon_cont.
+    apply andb_true_iff in Hr. destruct Hr as [Hn Hh]. rewrite Hn. destruct c; [reflexivity|exact Hh].
+  - unfold last_nonempty. destruct (rev rest) as [|z zs] eqn:Er; [reflexivity|]. destruct z; [|reflexivity].
+    assert (Hin : In [] rest) by (apply in_rev; rewrite Er; left; reflexivity). rewrite forallb_forall in Hr. specialize (Hr _ Hin).
+    unfold canon_cont in Hr. rewrite andb_false_r in Hr. discriminate.
+Qed.
+Lemma canon_pcanon ll y : canon_value y = true -> pcanon ll y = true.
+Proof. destruct ll; cbn [pcanon]; [auto|apply canon_lcanon]. Qed.
+Lemma dom_pcanon ll x : dom ll x -> pcanon ll x = true.
 Proof. destruct ll; cbn; [apply ll_dom_canon|auto]. Qed.
 Lemma rr_dom ll x : dom ll x -> rr ll x = x.
 Proof. destruct ll; cbn; [apply ll_dom_norm|reflexivity]. Qed.
@@ -151,18 +168,25 @@ Proof.
 Qed.
 
 (* ------------------------------------------------------------------ lines() on canonical values *)
-Lemma canon_value_lines x : canon_value x = true -> join [LF] (lines x) = x.
+Lemma lcanon_value_lines x : lcanon_value x = true -> join [LF] (lines x) = x.
 Proof.
-  unfold canon_value. intros H. pose proof (join_split_lf x) as Hj. destruct (split_lf x) as [|l1 rest] eqn:Es; [discriminate|].
-  apply andb_true_iff in H. destruct H as [H1 Hr]. unfold canon_first in H1. apply andb_true_iff in H1. destruct H1 as [Hn1 _].
+  unfold lcanon_value. intros H. pose proof (join_split_lf x) as Hj. destruct (split_lf x) as [|l1 rest] eqn:Es; [discriminate|].
+  apply andb_true_iff in H. destruct H as [H Hl]. apply andb_true_iff in H. destruct H as [H1 Hr].
+  unfold canon_first in H1. apply andb_true_iff in H1. destruct H1 as [Hn1 _].
+  assert (Hnr : forallb no_eol rest = true).
+  { apply forallb_forall. intros c Hc. rewrite forallb_forall in Hr. specialize (Hr c Hc). unfold lcanon_cont in Hr. apply andb_true_iff in Hr. apply Hr. }
   destruct rest as [|l2 r2].
   - cbn [join] in Hj. subst x. destruct l1 as [|c l]; [reflexivity|].
     change (c :: l) with (join [LF] [c :: l]) at 1. rewrite lines_join; [reflexivity| |cbn; discriminate].
     cbn [forallb]. rewrite Hn1. reflexivity.
   - rewrite <- Hj at 1. rewrite lines_join; [exact Hj| |].
-    + cbn [forallb]. rewrite Hn1. apply canon_cont_no_eol in Hr. exact Hr.
-    + change (last (l1 :: l2 :: r2) [1%N]) with (last (l2 :: r2) [1%N]). apply canon_cont_nonempty_last; [discriminate|exact Hr].
+    + cbn [forallb]. rewrite Hn1. exact Hnr.
+    + change (last (l1 :: l2 :: r2) [1%N]) with (last (l2 :: r2) [1%N]). unfold last_nonempty in Hl.
+      destruct (rev (l2 :: r2)) as [|z zs] eqn:Er; [apply (f_equal (@rev str)) in Er; rewrite rev_involutive in Er; discriminate|].
+      apply (f_equal (@rev str)) in Er. rewrite rev_involutive in Er. cbn [rev] in Er. rewrite Er, last_last. destruct z; discriminate.
 Qed.
+Lemma dom_value_lines ll x : dom ll x -> join [LF] (lines x) = x.
+Proof. intros H. apply lcanon_value_lines. destruct ll; cbn [dom] in H; [apply canon_lcanon, ll_dom_canon, H|exact H]. Qed.
 
 (* ------------------------------------------------------------------ the law, per codec pair *)
 Section Ext.
@@ -177,12 +201,27 @@ Notation from_field := (from_field E ext_parse).
 Notation from_fields := (from_fields E ext_parse).
 Notation to_items := (to_items E ext_print).
 
-(* THE assumption about the external codecs [ids] under the deb822 reader [ll] (validated by the
-   typed-doc stream on the real functions): a value obtained by parsing a text of the reader's
-   domain prints to canonical text which, as that reader shows it, parses to the same value *)
-Definition ext_stable (ll : bool) (ids : list N) : Prop :=
-  forall i x e, In i ids -> dom ll x -> ext_parse i x = Some e ->
-    canon_value (ext_print i e) = true /\ ext_parse i (rr ll (ext_print i e)) = Some e.
+(* THE law about the external codecs [ids] under the deb822 reader [ll]: a value obtained by
+   parsing a text of the reader's domain (and inside the guard [G] of the codec's known class, if it
+   has one) prints to canonical text which, as that reader shows it, parses to the same value.
+   For url / chrono / debversion / lossy Relations it is a premise (validated by the typed-doc
+   stream on the real functions); for the workspace's own codecs it is proved (TypedExtP.v). *)
+Definition ext_stable_on (G : N -> str -> bool) (ll : bool) (ids : list N) : Prop :=
+  forall i x e, In i ids -> G i x = true -> dom ll x -> ext_parse i x = Some e ->
+    pcanon ll (ext_print i e) = true /\ ext_parse i (rr ll (ext_print i e)) = Some e.
+(* without a guard *)
+Definition ext_stable (ll : bool) (ids : list N) : Prop := ext_stable_on (fun _ _ => true) ll ids.
+Lemma ext_stable_any_guard G ll ids : ext_stable ll ids -> ext_stable_on G ll ids.
+Proof. intros H i x e Hi _. apply H; [exact Hi|reflexivity]. Qed.
+
+(* the guard of the external codecs' known classes, on the values a struct reads through [get] *)
+Definition ext_guard (G : N -> str -> bool) (fs : list fieldspec) (get : str -> option str) : bool :=
+  forallb (fun f => match f_de f with
+                    | DExt i => match get (f_key f) with Some x => G i x | None => true end
+                    | _ => true
+                    end) fs.
+Lemma ext_guard_true fs get : ext_guard (fun _ _ => true) fs get = true.
+Proof. unfold ext_guard. apply forallb_forall. intros f _. destruct (f_de f); try reflexivity. destruct (get (f_key f)); reflexivity. Qed.
 
 Lemma parse_udec_range bits s n : parse_udec bits s = Some n -> (n < 2 ^ bits)%N.
 Proof.
@@ -203,13 +242,14 @@ Lemma canon_bool_words : canon_value s_true = true /\ canon_value s_false = true
   canon_value s_no = true /\ canon_value s_ja = true /\ canon_value s_nee = true.
 Proof. vm_compute. repeat split. Qed.
 
-Theorem stable_field ll ids s d x u :
-  ext_stable ll ids -> (forall i, d = DExt i -> In i ids) -> stable_pair s d = true ->
+Theorem stable_field G ll ids s d x u :
+  ext_stable_on G ll ids -> (forall i, d = DExt i -> In i ids /\ G i x = true) -> stable_pair s d = true ->
   dom ll x -> de d x = Some u ->
-  exists y, ser s u = Some y /\ canon_value y = true /\ de d (rr ll y) = Some u.
+  exists y, ser s u = Some y /\ pcanon ll y = true /\ de d (rr ll y) = Some u.
 Proof.
-  intros Hext Hid Hp Hx Hd. pose proof (dom_canon _ _ Hx) as Hc. pose proof (rr_dom _ _ Hx) as Hr.
+  intros Hext Hid Hp Hx Hd. pose proof (dom_pcanon _ _ Hx) as Hc. pose proof (rr_dom _ _ Hx) as Hr.
   destruct canon_bool_words as (Ct & Cf & Cy & Cn & Cj & Cne).
+  pose proof (canon_pcanon ll) as CP.
   destruct s, d; cbn [stable_pair] in Hp; try discriminate; cbn [Derive.de] in Hd.
   - (* SStr DStr *) injection Hd as <-. exists x. cbn [Derive.ser Derive.de]. rewrite Hr. auto.
   - (* SBool DBool *)
@@ -223,7 +263,7 @@ Proof.
   - (* SNum DNum *)
     destruct (parse_udec bits x) as [n|] eqn:Ep; [|discriminate]. injection Hd as <-.
     exists (print_dec n). cbn [Derive.ser Derive.de]. rewrite rr_single by apply no_lf_print_dec.
-    rewrite (parse_print_dec _ _ (parse_udec_range _ _ _ Ep)). split; [reflexivity|]. split; [apply canon_print_dec|reflexivity].
+    rewrite (parse_print_dec _ _ (parse_udec_range _ _ _ Ep)). split; [reflexivity|]. split; [apply CP, canon_print_dec|reflexivity].
   - (* SInt DInt *)
     destruct (parse_int bits x) as [z|] eqn:Ep; [|discriminate]. injection Hd as <-.
     exists (print_int z). cbn [Derive.ser Derive.de]. destruct (canon_print_int z) as [C1 C2]. rewrite rr_single by exact C2.
@@ -231,7 +271,7 @@ Proof.
   - (* SJoinWs DSplitWs *)
     injection Hd as <-. exists (join [32%N] (split_ws x)). cbn [Derive.ser Derive.de]. pose proof (split_ws_items x) as Hi.
     rewrite rr_single by (apply no_eol_no_lf, join_sp_no_eol, Hi). rewrite (split_ws_join _ Hi).
-    split; [reflexivity|]. split; [apply canon_join_sp; exact Hi|reflexivity].
+    split; [reflexivity|]. split; [apply CP, canon_join_sp; exact Hi|reflexivity].
   - (* SJoinNl DSplitNl *)
     injection Hd as <-. exists x. cbn [Derive.ser Derive.de]. change [10%N] with [LF]. rewrite join_split_lf, Hr. auto.
   - (* SJoinNl DSplitNlE: the empty text is the empty list, anything else as above *)
@@ -239,19 +279,19 @@ Proof.
     + destruct x; [reflexivity|]. change [10%N] with [LF]. rewrite join_split_lf. reflexivity.
     + rewrite Hr. auto.
   - (* SJoinNl DLines *)
-    injection Hd as <-. exists x. cbn [Derive.ser Derive.de]. change [10%N] with [LF]. rewrite (canon_value_lines _ Hc), Hr. auto.
+    injection Hd as <-. exists x. cbn [Derive.ser Derive.de]. change [10%N] with [LF]. rewrite (dom_value_lines _ _ Hx), Hr. auto.
   - (* SExt DExt *)
     apply N.eqb_eq in Hp. subst id0. destruct (ext_parse id x) as [e|] eqn:Ep; [|discriminate]. injection Hd as <-.
-    destruct (Hext id x e (Hid id eq_refl) Hx Ep) as [C1 C2]. exists (ext_print id e). cbn [Derive.ser Derive.de]. rewrite C2. auto.
+    destruct (Hid id eq_refl) as [Hin HG]. destruct (Hext id x e Hin HG Hx Ep) as [C1 C2]. exists (ext_print id e). cbn [Derive.ser Derive.de]. rewrite C2. auto.
 Qed.
 
 (* the white-space separated list printed one item per line *)
 Theorem hash_field ll s d x u : hash_pair s d = true -> hash_word_free x = true -> de d x = Some u ->
-  exists y, ser s u = Some y /\ canon_value y = true /\ de d (rr ll y) = Some u.
+  exists y, ser s u = Some y /\ pcanon ll y = true /\ de d (rr ll y) = Some u.
 Proof.
   intros Hp Hh Hd. destruct s, d; try discriminate. cbn [Derive.de] in Hd. injection Hd as <-.
   pose proof (split_ws_items x) as Hi. exists (join [LF] (split_ws x)). cbn [Derive.ser Derive.de].
-  split; [reflexivity|]. split; [apply canon_join_lf; assumption|].
+  split; [reflexivity|]. split; [apply canon_pcanon, canon_join_lf; assumption|].
   assert (Hrr : rr ll (join [LF] (split_ws x)) = join [LF] (split_ws x)).
   { destruct ll; [|reflexivity]. cbn [rr]. destruct (split_ws x) as [|w1 rest] eqn:Es; [reflexivity|].
     apply ll_norm_join; [|apply forallb_ws_no_lf; exact Hi].
@@ -288,7 +328,7 @@ Qed.
 (* a struct value that prints to canonical items and reads back from them *)
 Definition good (ll : bool) (fs : list fieldspec) (v : sval) : Prop :=
   to_items fs v = Some (present_items E ext_print fs v) /\
-  forallb canon_field (present_items E ext_print fs v) = true /\
+  forallb (pfield ll) (present_items E ext_print fs v) = true /\
   map fst (present_items E ext_print fs v) = present_keys E fs v /\
   from_fields (fun k => option_map (rr ll) (l_get (present_items E ext_print fs v) k)) fs = DOk v.
 
@@ -296,15 +336,15 @@ Definition good (ll : bool) (fs : list fieldspec) (v : sval) : Prop :=
 Definition field_good (ll : bool) (f : fieldspec) (x : option uval) : Prop :=
   match x with
   | None => f_opt f = true
-  | Some u => exists y, ser (f_ser f) u = Some y /\ canon_value y = true /\ de (f_de f) (rr ll y) = Some u
+  | Some u => exists y, ser (f_ser f) u = Some y /\ pcanon ll y = true /\ de (f_de f) (rr ll y) = Some u
   end.
 
 Lemma present_items_canon ll fs v : forallb (fun f => valid_name (f_key f)) fs = true ->
-  Forall2 (field_good ll) fs v -> forallb canon_field (present_items E ext_print fs v) = true.
+  Forall2 (field_good ll) fs v -> forallb (pfield ll) (present_items E ext_print fs v) = true.
 Proof.
   intros Hk H. induction H as [|f x fs v Hx _ IH]; [reflexivity|]. cbn [forallb] in Hk. apply andb_true_iff in Hk. destruct Hk as [Hk Hr].
   cbn [present_items]. destruct x as [u|]; cbn [fprint].
-  - destruct Hx as (y & Hy & Hc & _). rewrite Hy. cbn [forallb]. rewrite (IH Hr), andb_true_r. unfold canon_field. cbn [fst snd]. rewrite Hk, Hc. reflexivity.
+  - destruct Hx as (y & Hy & Hc & _). rewrite Hy. cbn [forallb]. rewrite (IH Hr), andb_true_r. unfold pfield. cbn [fst snd]. rewrite Hk, Hc. reflexivity.
   - apply IH. exact Hr.
 Qed.
 
@@ -346,12 +386,12 @@ Qed.
 
 (* THE struct-level statement: a value read through [get] (all of whose values are in the reader's
    domain) is good *)
-Theorem read_value_good ll fs get v :
-  ok_struct_stable fs = true -> ext_stable ll (ext_ids fs) -> hash_guard fs get = true ->
+Theorem read_value_good G ll fs get v :
+  ok_struct_stable fs = true -> ext_stable_on G ll (ext_ids fs) -> ext_guard G fs get = true -> hash_guard fs get = true ->
   (forall k x, get k = Some x -> dom ll x) ->
   from_fields get fs = DOk v -> good ll fs v.
 Proof.
-  intros Hok Hext Hg Hdom Hv. destruct (ok_struct_stable_facts _ Hok) as (Hnd & Hk & Hpairs).
+  intros Hok Hext HG Hg Hdom Hv. unfold ext_guard in HG. rewrite forallb_forall in HG. destruct (ok_struct_stable_facts _ Hok) as (Hnd & Hk & Hpairs).
   apply good_of_fields; [exact Hnd|exact Hk|]. apply from_fields_reads in Hv.
   unfold hash_guard in Hg. rewrite forallb_forall in Hg.
   assert (Haux : forall fs0 v0, (forall f, In f fs0 -> In f fs) -> Forall2 (field_reads_as get) fs0 v0 -> Forall2 (field_good ll) fs0 v0).
@@ -359,7 +399,8 @@ Proof.
     - pose proof (Hin f (or_introl eq_refl)) as Hf. unfold field_reads_as in Hx. unfold field_good.
       destruct (get (f_key f)) as [s|] eqn:Eg.
       + destruct Hx as (u & -> & Hd). destruct (Hpairs f Hf) as [Hp|Hp].
-        * eapply stable_field; [exact Hext| |exact Hp|apply (Hdom _ _ Eg)|exact Hd]. intros i Hi. eapply ext_ids_in; eassumption.
+        * eapply stable_field; [exact Hext| |exact Hp|apply (Hdom _ _ Eg)|exact Hd]. intros i Hi. split; [eapply ext_ids_in; eassumption|].
+          specialize (HG f Hf). rewrite Hi, Eg in HG. exact HG.
         * eapply hash_field; [exact Hp| |exact Hd]. specialize (Hg f Hf). rewrite Hp, Eg in Hg. cbn in Hg. exact Hg.
       + destruct Hx as [-> Ho]. exact Ho.
     - apply IH; [|exact Hr]. intros g Hg'. apply Hin. right. exact Hg'. }
